@@ -61,8 +61,10 @@ add("C06", "model_checking",
     "real code (n_iter_max = 1..K, tolerance off, plus loose-tolerance runs so the convergence exit is taken); in every state the reported values must be finite, the last "
     "one must equal the error of the returned decomposition recomputed by an independent einsum reconstruction, prefix lists must be bit-identical, and every "
     "(decomposition, error) pair given to a callback must agree.",
-    "Bounds: order 2-4, dims<=4, rank<=3, K<=9 (13 thorough). Tolerance 1e-6 absolute on the relative error (shortcut formula) / 1e-9 (explicit residual). CMTF accepted with or "
-    "without the documented factor 1/2. Global NumPy RNG re-seeded before every run.", engine="HX")
+    "Bounds: order 2-4, dims<=4, rank<=3, K<=9 (13 thorough). Tolerance 1e-6 absolute on the relative error (shortcut formula) / 1e-9 (explicit residual), widened for tensor-ring "
+    "iterates by the forward rounding bound 16*eps*prod||G_k||/||X|| (rank-deficient core updates give cancelling cores of size 1e11). CMTF accepted with or "
+    "without the documented factor 1/2. Global NumPy RNG re-seeded before every run. The tensor-algebra backend (core / einsum) is a configuration axis; tensor-ring ranks include a "
+    "bottleneck bond next to a bond wider than its mode (rank-deficient design matrix).", engine="HX")
 
 add("C09", "exploration",
     "bounded exhaustive enumeration of (shape x input family x every rank vector x svd method [x start mode]) with singular-value tail bounds computed independently",
@@ -126,7 +128,9 @@ add("C07", "model_checking",
     "CP-ALS (plain, normalised, line search, l2, fixed mode, masked), HALS-NNCP, HOOI, PARAFAC2 (+nn, +line search), TR-ALS, CMTF, the CP/Tucker ridge regressors and the inner sweeps of "
     "hals_nnls (through its callback): for every transition s_k -> s_k+1 of every configuration the objective must not increase; for CP-ALS and HOOI a boring numpy reference sweep "
     "applied to s_k must reproduce s_k+1.",
-    "Guard (counted): block Gram condition number <= 1e8. Tolerance f(s')<=f(s)(1+1e-9)+1e-12*scale; reference sweeps 1e-7 relative (skipped on singular-value ties).", engine="HX")
+    "Guard (counted): block Gram condition number <= 1e8. Tolerance f(s')<=f(s)(1+1e-9)+1e-12*scale; reference sweeps 1e-7 relative (skipped on singular-value ties). "
+    "Configuration axes added after the seed waves: tensor-algebra backend core/einsum for CP-ALS, HALS-NNCP, HOOI and PARAFAC2; scalar, vector- and matrix-valued responses for CPRegressor with "
+    "reg_W in {0.1, 1, 10, 100}; hals_nnls with sparsity x ridge x cold/warm start.", engine="HX")
 
 add("C11", "exploration",
     "bounded exhaustive enumeration of (constraint x specification form x every mode subset x parameters x data x rank x init x outer/inner budgets), all pairs of constraints on disjoint modes, and every conflicting pair (must raise); feasibility oracle per constrained mode",
